@@ -26,10 +26,13 @@ When the runner returns, its `process` callback is dropped from the pipe, the pi
 (`pipe.py:186-189`) and discards every later event (`pipe.py:166-180`): state `ended`.
 
 Two things the application can do are events as well: `obsCancel` = `request.observation.cancel()`
-(the runner notices at its next resumption, `protocol.py:759`) and `respCancel` =
-`request.response.cancel()` (`protocol.py:680-692`).  `obsCancel` before the first response, or
-twice, runs into `RuntimeError`/`AssertionError` paths of `ClientObservation` that are not
-modelled: state `unmodelled` (the driver answers `out-of-model`).
+(the runner notices at its next resumption: `self.observation.cancelled` is tested in the loop and —
+since the fourth `fix:` commit for C07 — on the first-event paths as well, so an observation
+cancelled before the first response is never told anything while the response future completes as
+usual) and `respCancel` = `request.response.cancel()` (`protocol.py:680-692`).  `obsCancel` twice
+(the "cancelled twice" assertion of `ClientObservation.cancel`, raised in the application's own
+call), or on a request without Observe option (`request.observation` is `None`), is not modelled:
+state `unmodelled` (the driver answers `out-of-model`).
 
 Not modelled (runtime): the asyncio future behind `response`, the lossy `_Iterator`
 (`protocol.py:1162-1210`), registration of callbacks after the fact (`_latest_response` replay),
@@ -75,6 +78,7 @@ deriving DecidableEq, Repr
 
 inductive ObsState
   | awaitingFirst               -- suspended at `first_event = yield None`
+  | cancelledFirst              -- the same, after `observation.cancel()` by the application
   | observing (v1 t1 : Nat)     -- suspended at `next_event = yield True`
   | appCancelled                -- the same, after `observation.cancel()` by the application
   | ended                       -- the runner has returned; the pipe has ended
@@ -105,7 +109,21 @@ def stepFirst (cfg : Cfg) (t : Nat) : Event → ObsState × List Delivery
     -- `protocol.py:738-746` (second `fix:` commit for C07): the observation is told the
     -- transport's exception, not `NotObservable`
     (.ended, .responseExc k :: (if cfg.observe then [.errback (.transport k)] else []))
-  | .obsCancel => (.unmodelled, [])
+  | .obsCancel => if cfg.observe then (.cancelledFirst, []) else (.unmodelled, [])
+  | .respCancel => (.ended, [.stopInterest])
+
+/-- the first event when the application has cancelled the observation before
+(`protocol.py:707-765`, the `self.observation.cancelled` tests of the fourth `fix:` commit): the
+response future completes as usual, the observation is told nothing; a first notification still
+starts the loop, whose first resumption withdraws from the pipe (`stepCancelled`) -/
+def stepCancelledFirst : Event → ObsState × List Delivery
+  | .message m last =>
+    if last then (.ended, [.response m])
+    else match m.obs with
+      | none => (.ended, [.response m, .stopInterest])
+      | some _ => (.appCancelled, [.response m])
+  | .exception k => (.ended, [.responseExc k])
+  | .obsCancel => (.unmodelled, [])            -- "ClientObservation cancelled twice"
   | .respCancel => (.ended, [.stopInterest])
 
 /-- one turn of the `while True` loop, `protocol.py:758-814` -/
@@ -134,6 +152,7 @@ def stepCancelled : Event → ObsState × List Delivery
 def step (cfg : Cfg) (s : ObsState) (e : TEvent) : ObsState × List Delivery :=
   match s with
   | .awaitingFirst => stepFirst cfg e.time e.ev
+  | .cancelledFirst => stepCancelledFirst e.ev
   | .observing v1 t1 => stepObserving cfg v1 t1 e.time e.ev
   | .appCancelled => stepCancelled e.ev
   | .ended =>
